@@ -42,6 +42,9 @@ R_COLLINEAR = Fraction(1, 10**5)    # Point3D::is_collinear (|ab x bc| < 1e-5)
 # ---------------------------------------------------------------------------------------------------------------
 # tokens -> integers
 
+# smallest extent of an outline that is judged (see static_precondition); C09 lowers it for its well-conditioned clause
+MIN_EXTENT = Fraction(1, 2)
+
 class NonFinite(Exception): pass
 class TooManyBands(Exception): pass
 
@@ -425,7 +428,7 @@ class Case:
         # "metre-scale coordinates": an outline less than half a metre across (the generator's shrunk family, edges of millimetres to
         # centimetres) is below the scale at which the crate's absolute tolerances (1e-5 on cross products, 1e-7 on heights) mean
         # what they are meant to mean; it is not judged (a panic there is still counted, as `panic-outside-space-...`)
-        if max(n23(sub3(q, self.outer_in[0])) for q in self.outer_in) < self.sc.r2(Fraction(1, 2)): return 'below-metre-scale'
+        if max(n23(sub3(q, self.outer_in[0])) for q in self.outer_in) < self.sc.r2(MIN_EXTENT): return 'below-metre-scale'
         self.N = vector_area2(self.outer_in)
         if self.N == (0, 0, 0): return 'degenerate-outline'
         a = [abs(x) for x in self.N]
